@@ -72,6 +72,15 @@ def menu_for(obj):
         ops += ["H.clear_edges()", "rshuffle(H)", "H.merge_duplicate_edges()", "H.update(edges=[[1, 2]], nodes=[3])",
                 "H.remove_node_from_edge(0, 1)"] + A.gen_swaps(obj)[:6]
     ops += ["xgi.largest_connected_hypergraph(H, in_place=True)"] if cls != "DiHypergraph" else []
+    # every combination of the boolean options of cleanup (in place): each step of the pipeline must go through a
+    # refusing mutator, whatever the earlier steps were switched to
+    try:
+        flags = [n for n, p_ in inspect.signature(type(obj).cleanup).parameters.items()
+                 if isinstance(p_.default, bool) and n != "in_place"]
+        for vals in itertools.product((False, True), repeat=len(flags)):
+            ops.append("H.cleanup(" + ", ".join(f"{n}={v}" for n, v in zip(flags, vals)) + ")")
+    except (TypeError, ValueError):
+        pass
     # library functions that fill the network passed as `create_using` (they empty it first): in-place with respect to it
     ops += CREATE_USING[cls]
     mentioned = {o.split("(", 1)[0].replace("H.", "") for o in ops if o.startswith("H.")}
